@@ -123,6 +123,8 @@ type interpreter struct {
 	now     int // counter for the time.Now stub
 	cur     *frame
 	inSummary int
+	fixedNow  int64
+	hasFixedNow bool
 	fnCache map[*ssa.Function]*fnInfo
 }
 
@@ -291,6 +293,11 @@ func visitInstr(fr *frame, instr ssa.Instruction) continuation {
 		panic(unsupported("channel send"))
 
 	case *ssa.Store:
+		if sp, ok := fr.get(instr.Addr).(*symElemPtr); ok {
+			k := asInt64(mkInt(sp.idx.k, fr.i.concretize(sp.idx.t)))
+			store(mustDeref(instr.Addr.Type()), &sp.xs[k], fr.get(instr.Val))
+			break
+		}
 		addr := fr.get(instr.Addr).(*value)
 		if addr == nil {
 			panic(targetPanic{"runtime error: invalid memory address or nil pointer dereference"})
@@ -384,13 +391,21 @@ func visitInstr(fr *frame, instr ssa.Instruction) continuation {
 		idx := fr.get(instr.Index)
 		switch x := x.(type) {
 		case []value:
-			fr.env[instr] = &x[fr.i.indexFor(idx, len(x), true)]
+			if sp := fr.i.symPtr(x, idx); sp != nil {
+				fr.env[instr] = sp
+			} else {
+				fr.env[instr] = &x[fr.i.indexFor(idx, len(x), true)]
+			}
 		case *value: // *array
 			if x == nil {
 				panic(targetPanic{"runtime error: invalid memory address or nil pointer dereference"})
 			}
 			a := (*x).(array)
-			fr.env[instr] = &a[fr.i.indexFor(idx, len(a), true)]
+			if sp := fr.i.symPtr([]value(a), idx); sp != nil {
+				fr.env[instr] = sp
+			} else {
+				fr.env[instr] = &a[fr.i.indexFor(idx, len(a), true)]
+			}
 		default:
 			panic(fmt.Sprintf("unexpected x type in IndexAddr: %T", x))
 		}
